@@ -150,38 +150,60 @@ def run(repo: Repo, rep: Report, tier: str) -> None:
 
 
 def _rule_1_6(ts: Function, rep) -> None:
+    from sa.cfg import guards as _g16
+    from sa.match import Locals as _L16
+
     tcfg = CFG(ts.node)
     tdom = tcfg.dominators()
+    TL = _L16(ts.node)
     n16 = 0
-    for nd in tcfg.nodes:
-        if nd.kind != "stmt" or not isinstance(nd.ast, ast.Assign) or nd.copy:
-            continue
-        v = nd.ast.value
-        parts = [p_.value for p_ in v.values if isinstance(p_, ast.Constant)] if isinstance(v, ast.JoinedStr) else []
-        holes = [p_.value for p_ in v.values if isinstance(p_, ast.FormattedValue)] if isinstance(v, ast.JoinedStr) else []
-        if not (parts and str(parts[-1]).rstrip().endswith("| None") and len(holes) == 1 and isinstance(holes[0], ast.Name) and not str(parts[0]).startswith('"')):
-            continue
-        n16 += 1
-        var = holes[0].id
-        from sa.cfg import guards as _g16
 
-        safe = False
-        for g, pol in _g16(tcfg, nd.id, tdom):
-            if g.kind != "test" or pol is None:
+    def alternatives(e: ast.AST, conds):
+        """(expression, [(test, polarity)]) for every arm of (nested) conditional expressions"""
+        if isinstance(e, ast.IfExp):
+            return alternatives(e.body, conds + [(e.test, True)]) + alternatives(e.orelse, conds + [(e.test, False)])
+        return [(e, conds)]
+
+    def appends_none(e: ast.AST):
+        """the variable `v` when `e` is `<v> + " | None"` / f"{v} | None" not starting with a quote, else None"""
+        t = template_of(e)
+        if t is None or not t.parts:
+            return None
+        last, first = t.parts[-1], t.parts[0]
+        if not (isinstance(last, str) and last.rstrip().endswith("| None")):
+            return None
+        if isinstance(first, str) and first.startswith('"'):
+            return None
+        holes = [p_ for p_ in t.parts if not isinstance(p_, str)]
+        if len(holes) == 1 and isinstance(holes[0], ast.Name):
+            return holes[0].id
+        return None
+
+    for nd in tcfg.nodes:
+        if nd.kind != "stmt" or not isinstance(nd.ast, (ast.Assign, ast.Return)) or nd.copy or nd.ast.value is None:
+            continue
+        for expr, conds in alternatives(nd.ast.value, []):
+            var = appends_none(expr)
+            if var is None:
                 continue
-            t = g.ast
-            negs = 0
-            mentions_quote = any(isinstance(c, ast.Call) and isinstance(c.func, ast.Attribute) and c.func.attr == "startswith" and isinstance(c.func.value, ast.Name)
-                                 and c.func.value.id == var and c.args and const_str(c.args[0]) == '"' for c in ast.walk(t))
-            if mentions_quote and pol is False:
-                safe = True  # we are on the branch where the type string is NOT a quoted name
-        sub = f"{ts.module.relpath}:_format_resolved_type appends `| None` (#{n16})"
-        if safe:
-            rep.ok("R1.6", sub, f"`{norm(nd.ast)[:60]}` runs only where `{var}` is not a quoted forward reference (that case is quoted as a whole)", ts.loc(nd.ast))
-        else:
-            rep.violation("R1.6", sub, f"{ts.fq}|quoted-operand-of-union",
-                          f"`{norm(nd.ast)[:60]}` can produce `\"Name\" | None`: evaluating the annotation raises TypeError (str | None), so a model with an "
-                          "optional reference to itself (or to a schema in an import cycle) cannot be imported", ts.loc(nd.ast))
+            n16 += 1
+            safe = False
+            gl = [(g.ast, pol) for g, pol in _g16(tcfg, nd.id, tdom) if g.kind == "test" and pol is not None] + conds
+            for t, pol in gl:
+                ti = TL.inline(t, stop=tuple(TL.params) + (var,))
+                # the quoted-name test may be one conjunct of the inlined condition; on the false side of a conjunction nothing is known
+                # about a single conjunct unless the condition *is* that conjunct or a conjunction evaluated as a whole flag (`is_quoted_name`)
+                mentions_quote = any(isinstance(c, ast.Call) and isinstance(c.func, ast.Attribute) and c.func.attr == "startswith" and isinstance(c.func.value, ast.Name)
+                                     and c.func.value.id == var and c.args and const_str(c.args[0]) == '"' for c in ast.walk(ti))
+                if mentions_quote and pol is False:
+                    safe = True  # we are on the branch where the type string is NOT a quoted name
+            sub = f"{ts.module.relpath}:_format_resolved_type appends `| None` (#{n16})"
+            if safe:
+                rep.ok("R1.6", sub, f"`{norm(expr)[:60]}` runs only where `{var}` is not a quoted forward reference (that case is quoted as a whole)", ts.loc(nd.ast))
+            else:
+                rep.violation("R1.6", sub, f"{ts.fq}|quoted-operand-of-union",
+                              f"`{norm(expr)[:60]}` can produce `\"Name\" | None`: evaluating the annotation raises TypeError (str | None), so a model with an "
+                              "optional reference to itself (or to a schema in an import cycle) cannot be imported", ts.loc(nd.ast))
     rep.require(n16 >= 1, "R1.6: the statement that appends `| None` was not found in _format_resolved_type (anchor)")
 
 
